@@ -706,6 +706,9 @@ def catalogue():
     add('terrain.generate_terrain', seed_arg=7, template='zeros', shape=[12, 14], dtype='float32', equiv='terrain-seed7-f32')
     add('terrain.generate_terrain', seed_arg=7, template='ramp', shape=[12, 14], backend='dask', equiv='terrain-seed7-dask')
     add('terrain.generate_terrain', seed_arg=7, template='zeros', shape=[12, 14], backend='dask', equiv='terrain-seed7-dask')
+    add('perlin.perlin', seed_arg=3, backend='dask')
+    add('perlin.perlin', seed_arg=0, backend='dask')
+    add('terrain.generate_terrain', seed_arg=3, backend='dask', template='ramp', shape=[12, 14])   # NaN-free template
     # true_color with a CONSTANT band (max == min: the normalisation kernel writes nothing for it)
     for cb in (0, 1, 2):
         add('multispectral.true_color', dtype='float64', const_band=cb, shape=[40, 48])
@@ -862,6 +865,26 @@ def call_prepared(f, args, kw):
         return 'ERR:%s' % type(e).__name__, '%s: %s' % (type(e).__name__, str(e)[:80])
 
 
+def lazy_call(f, args, kw):
+    """invoke without computing: the (possibly lazy Dask) result object, or an exception marker"""
+    import contextlib
+    import io
+    try:
+        with contextlib.redirect_stdout(io.StringIO()), contextlib.redirect_stderr(io.StringIO()):
+            return f(*args, **kw)
+    except Exception as e:
+        return RuntimeError('ERR:%s' % type(e).__name__)
+
+
+def lazy_digest(res):
+    if isinstance(res, RuntimeError):
+        return str(res)
+    try:
+        return digest(res)[0]
+    except Exception as e:
+        return 'ERR:%s' % type(e).__name__
+
+
 def args_digest(args, kw):
     """values, coordinates, attrs and name of every raster argument, plus the plain arguments"""
     import xarray as xr
@@ -940,7 +963,17 @@ def worker_main():
     except Exception:
         pass
     out = []
+    pending = []                      # (row index, lazy result, calls still to wait for)
+    LAG = 2
+
+    def flush(all_=False):
+        for item in list(pending):
+            item[2] -= 1
+            if all_ or item[2] < 0:
+                out[item[0]].append(lazy_digest(item[1]))
+                pending.remove(item)
     for d in req['calls']:
+        flush()
         try:
             f, args, kw = prepare(d)
         except Exception as e:
@@ -959,8 +992,12 @@ def worker_main():
                 continue
             r2 = call_prepared(f, args, kw)
             out.append([r1[0], r2[0], r1[1], args_digest(args, kw) != a0])
+            if d['backend'] == 'dask' and not r1[0].startswith('ERR'):
+                # deferred compute: request the lazy result now, compute it only after the next LAG calls were made
+                pending.append([len(out) - 1, lazy_call(f, args, kw), LAG])
         else:
             out.append([r1[0], None, r1[1], args_digest(args, kw) != a0])
+    flush(all_=True)
     sys.stdout.write('\n@@RESULT@@' + json.dumps(out) + '\n')
 
 
@@ -1141,6 +1178,17 @@ def run_sequences(ctx, seqs, threads_list, baseline_ids=None):
                         if not bump:
                             ctx.violation('correspondence', 'the model predicts history independence for %s; observed dependence' % d['fn'],
                                           case)
+                # deferred compute after interleaving: the lazy Dask result requested at this position and computed only
+                # after the next two calls must be the result of the call computed at once / in a fresh history
+                if len(rr) > 4 and rr[4] is not None:
+                    ctx.count('deferred dask compute/%s' % d['fn'].split('.')[-1])
+                    ref = fresh[i][0] if i in fresh else d1
+                    if rr[4] != ref:
+                        later = [cat[j]['fn'].split('.')[-1] + json.dumps(cat[j]['kw'], sort_keys=True) for j in s[pos + 1:pos + 3]]
+                        ctx.violation('oracle', 'the lazy Dask result of %s requested at position %d and computed after the next calls %s '
+                                                'is %s; computed at once / in a fresh process it is %s (%d threads)' % (
+                                                    what_call, pos, later, rr[4], ref, t),
+                                      dict(case, sequence=[cat[j] for j in s[:pos + 3]], deferred=True), key=key)
     return res
 
 
@@ -1199,7 +1247,12 @@ def run(ctx):
     tcblock = tc + ids('focal.apply', kernel='cross3', dtype='float64', backend='numpy', func=None)[:1] + \
         ids('multispectral.true_color', const_band=0, backend='numpy') + tc + \
         ids('multispectral.true_color', const_band=2, backend='numpy') + ids('multispectral.true_color', const_band=1, backend='dask')
-    seqs[0] = seqs[0][:max(0, len(seqs[0]) - 21)] + [perl, bump, perl] + xt3 + kern + shared + gen + tcblock
+    # lazy Dask results of the same function with other parameters (and a NumPy call) requested back to back: each is
+    # computed only after the next two calls (deferred compute after interleaving)
+    lazyblock = ids('perlin.perlin', seed_arg=5, backend='dask', freq=None, template=None) + ids('perlin.perlin', seed_arg=3, backend='numpy') + \
+        ids('perlin.perlin', seed_arg=3, backend='dask') + ids('terrain.generate_terrain', seed_arg=7, backend='dask', template='zeros') + \
+        ids('terrain.generate_terrain', seed_arg=3, backend='dask', template='ramp')
+    seqs[0] = seqs[0][:max(0, len(seqs[0]) - 24)] + [perl, bump, perl] + xt3 + kern + shared + gen + tcblock + lazyblock
     run_sequences(ctx, seqs, threads)
     ctx.exhaustive = False
     # ./check only widens the search when NO oracle violation was seen; the known bump finding is always seen, so
@@ -1245,6 +1298,17 @@ def replay_case(ctx, case):
     t = int(case.get('threads', 4))
     r = run_proc(seq, True, t, scheduler=case.get('scheduler'))
     f = run_proc([seq[-1]], False, 1)
+    if case.get('deferred'):
+        pos = int(case['position'])
+        d = seq[pos]
+        fr = run_proc([d], False, 1)
+        ctx.case(dict(replay=True, fn=d['fn'], deferred=True))
+        ctx.traces += 1
+        got = r[pos][4] if len(r[pos]) > 4 else None
+        if got is not None and got != fr[0][0]:
+            ctx.violation('oracle', 'the lazy Dask result of %s computed after the next calls is %s, a fresh process gives %s' % (
+                d['fn'], got, fr[0][0]), case)
+        return
     d = seq[-1]
     ctx.case(dict(replay=True, fn=d['fn']))
     key = 'bump-unseeded-global-rng' if d['fn'] == 'bump.bump' else None
